@@ -35,7 +35,7 @@ for p in props:
                        'Necessary-not-sufficient: a data-dependent bug inside correctly shaped code is out of reach. Unrecognised shapes give exit 2 (ANALYSIS-ERROR), never a VIOLATION. '
                        'Every run re-validates the rules on in-memory mutants of the current tree (expected rule must fire; neutral edits must stay silent). ' +
                        ' '.join(getattr(mod, 'ASSUMPTIONS', []))),
-        'technique': getattr(mod, 'TECHNIQUE', 'static analysis over ast: resolved call model + CFG must-dataflow + finite-domain truth tables + structural shape rules'),
+        'technique': getattr(mod, 'TECHNIQUE', 'static analysis of the parsed sources (ast; nothing imported or run): resolved class / call model; path-sensitive abstract interpretation of the anchored functions (event traces over canonical symbolic values, helpers inlined, branch facts evaluated over finite domains); finite-domain evaluation of anchored functions on abstract node objects with recording stand-ins for collaborators (truth / binding / lookup tables); two-store effect pairing, path-base typing and shared-write inventories; per-run self-test by in-memory mutants'),
     })
 m = {
     'version': 1,
